@@ -254,4 +254,21 @@ func propC09(c *Ctx) {
 		c.Ordered(d6, fn, []string{"register new", "unregister old", "record new scope"}, []func(Site) bool{isCall("(*udp.endpoint).registerWithStack"), isCall("(*stack.Stack).UnregisterTransportEndpoint"), isStore("udp.endpoint.regNICID")})
 	}
 
+	d7 := c.Rule("D7", "K2 acquire/release pairing", "endpoint references taken for a lookup are released or handed on", 5)
+	acq := []string{"(*stack.NIC).findEndpoint", "(*stack.NIC).primaryEndpoint", "(*stack.NIC).getRef"}
+	rel := []string{"(*stack.referencedNetworkEndpoint).decRef"}
+	xfer := []string{"stack.makeRoute"}
+	for _, n := range []string{"(*stack.Stack).CheckLocalAddress", "(*stack.Stack).FindRoute", "(*stack.NIC).DeliverNetworkPacket"} {
+		if fn := c.Fn(d7, n); fn != nil {
+			c.RefBalanced(d7, fn, acq, rel, xfer)
+		}
+	}
+	c.CheckCallers(d7, acq, []CallerSpec{
+		{Fn: "(*stack.Stack).CheckLocalAddress", Target: "(*stack.NIC).findEndpoint", Args: []string{"$0.nics[$1]", "$2", "$3", "0"}, Why: "explicit NIC: probe that NIC only"},
+		{Fn: "(*stack.Stack).CheckLocalAddress", Target: "(*stack.NIC).findEndpoint", Args: []string{"next(range($0.nics))#2", "$2", "$3", "0"}, Why: "any NIC: probe each"},
+		{Fn: "(*stack.Stack).FindRoute", Target: "(*stack.NIC).findEndpoint", Args: []string{"$0.nics[$0.routeTable[(1 + phi{-1 | loop})].NIC]", "$4", "$2", "0"}, Why: "route lookup with a requested local address"},
+		{Fn: "(*stack.Stack).FindRoute", Target: "(*stack.NIC).primaryEndpoint", Args: []string{"$0.nics[$0.routeTable[(1 + phi{-1 | loop})].NIC]", "$4"}, Why: "route lookup without one"},
+		{Fn: "(*stack.NIC).DeliverNetworkPacket", Target: "(*stack.NIC).getRef", Args: []string{"$0", "$4", "iface:stack.NetworkProtocol.ParseAddresses($0.stack.networkProtocols[$4]#0, buffer.VectorisedView.First($5))#1"}, Why: "inbound: the endpoint that owns the destination address"},
+	})
+
 }
